@@ -8,9 +8,9 @@
   batch* with a masked weight vector (the weight the row-wise `route` would hand to that child, 0
   otherwise); SparselyBin creates bins for the indices met with positive weight, Categorize for
   every category met (also with zero weight — the "up to zero-weight bins" clause of C03).
-  Leaves reduce the batch at once.  numpy's `histogram`/`unique`/`average` enter as their contracts
-  (sum of weights per half-open bin with the right edge of the range excluded by the code; distinct
-  values; weighted mean).
+  Leaves reduce the batch at once.  numpy's `bincount`/`unique`/`average` enter as their contracts
+  (sum of weights per bin index, the index being `fill`'s own formula since fix 3678dd7 — before it,
+  `numpy.histogram`; distinct values; weighted mean).
 -/
 import Hg.Model.Ops
 
